@@ -70,8 +70,10 @@ func (p *Path) valueHasSecret(v Value, seenT map[*Term]bool, seenP map[*Value]bo
 		// a byte slice may be a codec token
 		if len(x.A) > len(codecMagic) {
 			if bs, ok := tryBytes(x); ok {
-				if e := p.codecLookup(bs); e != nil {
-					return p.valueHasSecret(e.val, seenT, seenP, depth+1)
+				for _, e := range p.codecTokensIn(bs) {
+					if p.valueHasSecret(e.val, seenT, seenP, depth+1) {
+						return true
+					}
 				}
 			}
 		}
@@ -186,6 +188,7 @@ type fileState struct {
 	stale       bool // bytes of an earlier, longer content remain after the current one
 	overwriting bool
 	oldSize     int
+	isDir       bool // a directory sits at this path: it cannot be created, opened for writing or written as a file
 }
 
 func (p *Path) files() map[string]*fileState {
@@ -283,9 +286,22 @@ func init() {
 		*ptr = Value(&Native{Kind: "os:file", Data: p.fileAt(path)})
 		return ptr
 	}
+	reg("os.Mkdir", func(p *Path, fn *ssa.Function, a []Value) Value {
+		path := strArg(p, a[0])
+		f := p.fileAt(path)
+		if f.exists || f.isDir {
+			return p.eexist()
+		}
+		f.isDir = true
+		p.fsNoteOpen("dir:"+path, a[1])
+		return Iface{}
+	})
 	reg("os.Create", func(p *Path, fn *ssa.Function, a []Value) Value {
 		path := strArg(p, a[0])
 		f := p.fileAt(path)
+		if f.isDir {
+			return Tuple{(*Value)(nil), p.newError(StrC("open "+path+": is a directory"), nil)}
+		}
 		if !f.exists {
 			f.mode = 0o666 &^ 0o022 // umask 022
 		}
@@ -297,6 +313,9 @@ func init() {
 	reg("os.WriteFile", func(p *Path, fn *ssa.Function, a []Value) Value {
 		path := strArg(p, a[0])
 		f := p.fileAt(path)
+		if f.isDir {
+			return p.newError(StrC("open "+path+": is a directory"), nil)
+		}
 		if !f.exists {
 			f.mode = uint64(p.concInt(a[2].(*Term))) &^ 0o022
 		}
@@ -351,7 +370,7 @@ func init() {
 		path := strArg(p, a[0])
 		for k, f := range p.files() {
 			if k == path || strings.HasPrefix(k, path+"/") {
-				f.exists, f.writes = false, nil
+				f.exists, f.writes, f.isDir = false, nil, false
 			}
 		}
 		return Iface{}
@@ -578,6 +597,9 @@ func init() {
 		path := strArg(p, a[0])
 		flags := p.concInt(a[1].(*Term))
 		f := p.fileAt(path)
+		if f.isDir && flags&3 != 0 {
+			return Tuple{(*Value)(nil), p.newError(StrC("open "+path+": is a directory"), nil)}
+		}
 		if f.exists && flags&0x40 != 0 && flags&0x80 != 0 { // O_CREATE|O_EXCL on an existing file
 			return Tuple{(*Value)(nil), p.eexist()}
 		}
